@@ -31,6 +31,9 @@ def stream(ctx, n_runs, corrs, monitors, acct_types=("STOCK", "FUTURE"), gen=Non
         tr = trading.run_trading(rnd, S, cfgk)
         tr.run_seed, tr.run_index = rs, k
         ctx.stats["runs"] += 1
+        for sk, sv in tr.stats.items():
+            if not sk.startswith("_") and isinstance(sv, int):
+                ctx.stats["trace." + sk] += sv
         if tr.exc is not None:
             ctx.stats["runs_ended_by_exception:" + type(tr.exc).__name__] += 1
             if len(ctx.notes) < 5:
